@@ -27,7 +27,7 @@ func vh_ALIS() {
 	}
 	req.Bytes = b[:]
 	// the boundary entry is absent or conflicts, so the snapshot is restored into the state machine
-	if bt, ok := vTermAtSym(&vSnap{firstIndex: n.log.entries[0].Index, lastIndex: n.log.LastIndex(), terms: vTermsOf(n.log)}, L); ok {
+	if bt, ok := vTermAtSym(&vSnap{firstIndex: n.log.entries[0].Index, lastIndex: n.log.LastIndex(), logLen: len(n.log.entries), terms: vTermsOf(n.log)}, L); ok {
 		vAssume(bt != req.LastIncludedTerm)
 		vAssume(L > r.commitIndex) // GA2': a committed entry agrees with the snapshot
 	}
